@@ -2,7 +2,7 @@
 // Decoder: bytes -> a scenario in an abstract IR (vector<Stmt>): expectations (every parameter type, counts, return
 //          values of every type, output parameters, custom types), actual calls (parameter order, every getter incl.
 //          OrDefault and generic returnValue), support-level getters, data store, scopes, strict order,
-//          ignore/enable/disable, comparators/copiers, checkExpectations, expectedCallsLeft, clear, crashOnFailure;
+//          ignore/enable/disable, comparators/copiers (three function sets, re-installed on the global mock and on scopes), checkExpectations, expectedCallsLeft, clear, crashOnFailure;
 //          values from boundary lattices; a passing scenario or one with exactly one injected deviation.
 // Oracle:  differential.  Interpreter A drives mock(), interpreter B drives mock_c(); each is the body of one fixture test
 //          (private TestResult / StringBufferTestOutput).  Compared: the per-statement trace (every returned value with its
@@ -88,30 +88,57 @@ unsigned char OUT[4][16];
 void reset_out() { memset(OUT, 0xAA, sizeof OUT); }
 std::string hex(const unsigned char* p, size_t n) { std::string o; for (size_t i = 0; i < n; i++) o += sfmt("%02x", p[i]); return o; }
 
-// custom types: T compares key, U compares payload; both are NULL-safe; the copier copies the whole object
-bool obj_equal(char type, const void* a, const void* b) {
+// custom types: the type names T and U can be served by any of three distinguishable function sets, and can be (re-)installed
+// several times, on the global mock and on scopes:
+//   set 0 ("A"): equal when the keys are equal;                 copier copies the whole object
+//   set 1 ("B"): equal when the payloads are equal;             copier copies the key only
+//   set 2 ("C"): equal when key and payload are equal;          copier stores the two fields swapped
+// all are NULL-safe; the valueToString texts differ per set.
+const int N_FSETS = 3;
+bool obj_equal(int set, const void* a, const void* b) {
     if (a == NULLPTR || b == NULLPTR) return a == b;
     const Obj* x = (const Obj*)a; const Obj* y = (const Obj*)b;
-    return type == 'T' ? x->key == y->key : x->payload == y->payload;
+    if (set == 0) return x->key == y->key;
+    if (set == 1) return x->payload == y->payload;
+    return x->key == y->key && x->payload == y->payload;
 }
-void obj_print(char type, const void* a, char* buf, size_t n) {
-    if (a == NULLPTR) snprintf(buf, n, "%c{null}", type);
-    else snprintf(buf, n, "%c{key=%d,payload=%d}", type, ((const Obj*)a)->key, ((const Obj*)a)->payload);
+void obj_print(int set, const void* a, char* buf, size_t n) {
+    static const char* const f[3] = {"A{key=%d,payload=%d}", "B<%d|%d>", "C(k%d p%d)"};
+    if (a == NULLPTR) snprintf(buf, n, "%c-null", 'A' + set);
+    else snprintf(buf, n, f[set], ((const Obj*)a)->key, ((const Obj*)a)->payload);
 }
-void obj_copy(void* dst, const void* src) { if (dst && src) memcpy(dst, src, sizeof(Obj)); }
+void obj_copy(int set, void* dst, const void* src) {
+    if (!dst || !src) return;
+    const Obj* x = (const Obj*)src; Obj o;
+    if (set == 0) memcpy(dst, src, sizeof(Obj));
+    else if (set == 1) memcpy(dst, &x->key, sizeof x->key);
+    else { o.key = x->payload; o.payload = x->key; memcpy(dst, &o, sizeof o); }
+}
 
 extern "C" {
-static int c_T_equal(const void* a, const void* b) { return obj_equal('T', a, b) ? 1 : 0; }
-static int c_U_equal(const void* a, const void* b) { return obj_equal('U', a, b) ? 7 : 0; }   // any non-zero means equal
-static const char* c_T_str(const void* a) { static char buf[64]; obj_print('T', a, buf, sizeof buf); return buf; }
-static const char* c_U_str(const void* a) { static char buf[64]; obj_print('U', a, buf, sizeof buf); return buf; }
-static void c_copy(void* d, const void* s) { obj_copy(d, s); }
+static int c_eq0(const void* a, const void* b) { return obj_equal(0, a, b) ? 1 : 0; }
+static int c_eq1(const void* a, const void* b) { return obj_equal(1, a, b) ? 7 : 0; }   // any non-zero means equal
+static int c_eq2(const void* a, const void* b) { return obj_equal(2, a, b) ? -1 : 0; }
+static const char* c_str0(const void* a) { static char buf[64]; obj_print(0, a, buf, sizeof buf); return buf; }
+static const char* c_str1(const void* a) { static char buf[64]; obj_print(1, a, buf, sizeof buf); return buf; }
+static const char* c_str2(const void* a) { static char buf[64]; obj_print(2, a, buf, sizeof buf); return buf; }
+static void c_copy0(void* d, const void* s) { obj_copy(0, d, s); }
+static void c_copy1(void* d, const void* s) { obj_copy(1, d, s); }
+static void c_copy2(void* d, const void* s) { obj_copy(2, d, s); }
 }
-bool cpp_T_equal(const void* a, const void* b) { return obj_equal('T', a, b); }
-bool cpp_U_equal(const void* a, const void* b) { return obj_equal('U', a, b); }
-SimpleString cpp_T_str(const void* a) { char buf[64]; obj_print('T', a, buf, sizeof buf); return SimpleString(buf); }
-SimpleString cpp_U_str(const void* a) { char buf[64]; obj_print('U', a, buf, sizeof buf); return SimpleString(buf); }
-MockFunctionComparator* g_cmpT; MockFunctionComparator* g_cmpU; MockFunctionCopier* g_copier;
+MockTypeEqualFunction_c const C_EQ[N_FSETS] = {c_eq0, c_eq1, c_eq2};
+MockTypeValueToStringFunction_c const C_STR[N_FSETS] = {c_str0, c_str1, c_str2};
+MockTypeCopyFunction_c const C_COPY[N_FSETS] = {c_copy0, c_copy1, c_copy2};
+bool cpp_eq0(const void* a, const void* b) { return obj_equal(0, a, b); }
+bool cpp_eq1(const void* a, const void* b) { return obj_equal(1, a, b); }
+bool cpp_eq2(const void* a, const void* b) { return obj_equal(2, a, b); }
+SimpleString cpp_str0(const void* a) { char buf[64]; obj_print(0, a, buf, sizeof buf); return SimpleString(buf); }
+SimpleString cpp_str1(const void* a) { char buf[64]; obj_print(1, a, buf, sizeof buf); return SimpleString(buf); }
+SimpleString cpp_str2(const void* a) { char buf[64]; obj_print(2, a, buf, sizeof buf); return SimpleString(buf); }
+void cpp_copy0(void* d, const void* s) { obj_copy(0, d, s); }
+void cpp_copy1(void* d, const void* s) { obj_copy(1, d, s); }
+void cpp_copy2(void* d, const void* s) { obj_copy(2, d, s); }
+MockFunctionComparator* g_cmp[N_FSETS]; MockFunctionCopier* g_cop[N_FSETS];
 
 struct Val {
     VT t = T_INT;
@@ -192,7 +219,7 @@ Val eq_variant(Reader& r, const Val& v) {
     } else if (v.t == T_MEMBUF) {
         if (v.mb == MB0 && v.mbn == 8) o.mb = MB1;
     } else if (v.t == T_OBJ) {
-        if (v.obj == &OBJS[0] && v.otype[0] == 'T') o.obj = &OBJS[1];   // same key
+        if (v.obj == &OBJS[0] && v.otype[0] == 'T') o.obj = &OBJS[1];   // same key: equal under function set A only
     }
     return o;
 }
@@ -231,6 +258,7 @@ struct Stmt {
     uint8_t ekind = 0; unsigned n = 1; // expectation: 0 expectOneCall, 1 expectNCalls(n), 2 expectNoCall
     std::vector<Arg> args; Getter g;
     uint8_t dkind = 0; Val v;          // data store: 0..7 typed setters, 8 object, 9 const object
+    uint8_t fset = 0;                  // installComparator / installCopier: which of the three function sets
     bool flag = false;
 };
 
@@ -274,8 +302,8 @@ std::string stmt_str(const Stmt& s) {
     case OP_CHECK: o += ".checkExpectations()"; break;
     case OP_LEFT: o += ".expectedCallsLeft()"; break;
     case OP_CLEAR: o += ".clear()"; break;
-    case OP_INST_CMP: o += sfmt(".installComparator(%s)", s.name); break;
-    case OP_INST_COPY: o += sfmt(".installCopier(%s)", s.name); break;
+    case OP_INST_CMP: o += sfmt(".installComparator(%s,set%c)", s.name, 'A' + s.fset); break;
+    case OP_INST_COPY: o += sfmt(".installCopier(%s,set%c)", s.name, 'A' + s.fset); break;
     case OP_REMOVE_ALL: o += ".removeAllComparatorsAndCopiers()"; break;
     case OP_CRASH: o += sfmt(".crashOnFailure(%d)", s.flag ? 1 : 0); break;
     }
@@ -402,8 +430,8 @@ void gen_free(Reader& r, std::vector<Stmt>& out, int nearScope) {
         out.push_back(a);
         break; }
     case 6: { Stmt s = simple(OP_CRASH, sc); s.flag = r.below(4) == 1; out.push_back(s); break; }
-    case 7: out.push_back(simple(OP_INST_CMP, sc, OTYPES[r.below(2)])); break;
-    case 8: out.push_back(simple(OP_INST_COPY, sc, OTYPES[r.below(2)])); break;
+    case 7: { Stmt s = simple(OP_INST_CMP, sc, OTYPES[r.below(2)]); s.fset = (uint8_t)r.below(N_FSETS); out.push_back(s); break; }
+    case 8: { Stmt s = simple(OP_INST_COPY, sc, OTYPES[r.below(2)]); s.fset = (uint8_t)r.below(N_FSETS); out.push_back(s); break; }
     case 9: out.push_back(simple(OP_REMOVE_ALL, r.below(4) == 1 ? gen_scope(r) : 0)); break;
     case 10: out.push_back(simple(OP_CHECK, sc)); break;
     case 11: out.push_back(simple(OP_CLEAR, r.below(4) == 1 ? 0 : (sc ? sc : 1))); break;
@@ -415,7 +443,10 @@ void gen_free(Reader& r, std::vector<Stmt>& out, int nearScope) {
 void build(Reader& r, Program& P) {
     bool strict = r.below(4) == 1;
     bool ignoreCalls = r.below(8) == 1;
-    unsigned inst = r.below(6);
+    // one byte: which installations the prelude makes (0..5), with which function set (0..2), and whether the same type name is
+    // installed AGAIN on a scope with another function set (0 no, 1 comparator on s1, 2 comparator and copier on s2)
+    unsigned iv = r.below(54);
+    unsigned inst = iv % 6, fset = (iv / 6) % 3, reinst = iv / 18;
     unsigned nspecs = 1 + r.below(4);
     unsigned order = r.below(4);
     unsigned dv = r.below(24);
@@ -453,10 +484,13 @@ void build(Reader& r, Program& P) {
     // prelude
     if (inst != 0) {   // 0 none, 1 T on the global scope, 2 T and U (comparator only), 3 comparator of T only, 4 T on the first scope, 5 everything
         int sc = inst == 4 ? specs[0].scope : 0;
-        P.st.push_back(simple(OP_INST_CMP, sc, "T"));
-        if (inst != 3) P.st.push_back(simple(OP_INST_COPY, sc, "T"));
-        if (inst == 2 || inst == 5) P.st.push_back(simple(OP_INST_CMP, sc, "U"));
-        if (inst == 5) P.st.push_back(simple(OP_INST_COPY, sc, "U"));
+        auto install = [&](Op op, int scope, const char* type, unsigned set) { Stmt s = simple(op, scope, type); s.fset = (uint8_t)(set % N_FSETS); P.st.push_back(s); };
+        install(OP_INST_CMP, sc, "T", fset);
+        if (inst != 3) install(OP_INST_COPY, sc, "T", fset);
+        if (inst == 2 || inst == 5) install(OP_INST_CMP, sc, "U", fset + 1);
+        if (inst == 5) install(OP_INST_COPY, sc, "U", fset + 1);
+        if (reinst == 1) install(OP_INST_CMP, 1, "T", fset + 1);
+        if (reinst == 2) { install(OP_INST_CMP, 2, "T", fset + 2); install(OP_INST_COPY, 2, "T", fset + 1); }
     }
     if (strict) P.st.push_back(simple(OP_STRICT, 0));
     if (ignoreCalls) P.st.push_back(simple(OP_IGNORE_OTHER, 0));
@@ -868,12 +902,12 @@ void run_cpp(void* arg) {
             }
             break;
         case OP_INST_CMP:
-            m.installComparator(s.name, s.name[0] == 'T' ? *g_cmpT : *g_cmpU);
+            m.installComparator(s.name, *g_cmp[s.fset]);
             c->nodes = true;
             c->inst[s.scope] = true; if (s.scope == 0) for (int sc = 1; sc < 3; sc++) if (c->exists[sc]) c->inst[sc] = true;
             break;
         case OP_INST_COPY:
-            m.installCopier(s.name, *g_copier);
+            m.installCopier(s.name, *g_cop[s.fset]);
             c->nodes = true;
             c->inst[s.scope] = true; if (s.scope == 0) for (int sc = 1; sc < 3; sc++) if (c->exists[sc]) c->inst[sc] = true;
             break;
@@ -1095,9 +1129,9 @@ void run_c(void* arg) {
             if (s.scope == 0) for (int sc = 1; sc < 3; sc++) c->exists[sc] = false;
             break;
         case OP_INST_CMP:
-            if (s.name[0] == 'T') CS(installComparator)(s.name, c_T_equal, c_T_str); else CS(installComparator)(s.name, c_U_equal, c_U_str);
+            CS(installComparator)(s.name, C_EQ[s.fset], C_STR[s.fset]);
             break;
-        case OP_INST_COPY: CS(installCopier)(s.name, c_copy); break;
+        case OP_INST_COPY: CS(installCopier)(s.name, C_COPY[s.fset]); break;
         case OP_REMOVE_ALL:
             CS(removeAllComparatorsAndCopiers)();
             probe_repositories(c, k);
@@ -1146,9 +1180,8 @@ extern "C" const char* verif_property(void) { return "C19"; }
 extern "C" void verif_init(void) {
     verif::install_fake_time();
     UtestShell::setCrashMethod(count_crash);
-    g_cmpT = new MockFunctionComparator(cpp_T_equal, cpp_T_str);
-    g_cmpU = new MockFunctionComparator(cpp_U_equal, cpp_U_str);
-    g_copier = new MockFunctionCopier(obj_copy);
+    g_cmp[0] = new MockFunctionComparator(cpp_eq0, cpp_str0); g_cmp[1] = new MockFunctionComparator(cpp_eq1, cpp_str1); g_cmp[2] = new MockFunctionComparator(cpp_eq2, cpp_str2);
+    g_cop[0] = new MockFunctionCopier(cpp_copy0); g_cop[1] = new MockFunctionCopier(cpp_copy1); g_cop[2] = new MockFunctionCopier(cpp_copy2);
 }
 
 extern "C" int verif_case(const uint8_t* data, size_t size) {
@@ -1243,7 +1276,7 @@ void repro_static_c(void* p) {
     ((Repro*)p)->c = mock_scope_c("s1")->intReturnValue();
 }
 void repro_remove_c(void* p) {
-    mock_c()->installComparator("T", c_T_equal, c_T_str);
+    mock_c()->installComparator("T", c_eq0, c_str0);
     mock_scope_c("s1")->removeAllComparatorsAndCopiers();
     mock();
     MockNamedValue v("probe");
